@@ -157,7 +157,13 @@ def run_fault(case, chooser):
                 rig.ev(0, "EPSV")
             # (reuse_port: no new PASV/EPSV - the data connection made earlier if the failed command never took it,
             # else a new one to the passive port the session already has)
-            if not (case.get("reuse_port") and s0.data is not None and not s0.data.eof and not s0.data.received):
+            if case.get("reuse_port") == "reconnect" and s0.pasv_port is not None:
+                # the client gives the data connection it had made up (whether the failed command used it or not) and
+                # makes a new one to the same passive port, without asking for a new one
+                if s0.data is not None:
+                    rig.ev(0, "@dclose")
+                rig.ev(0, "@data")
+            elif not (case.get("reuse_port") and s0.data is not None and not s0.data.eof and not s0.data.received):
                 rig.ev(0, "@data")
             r = rig.ev(0, "RETR /o")
             codes = [c for c, _ in (r or [])]
@@ -298,6 +304,7 @@ def build_items(tier):
                     case = {"script": script, "backend": backend, "mode": "single", "k": k, "second": False,
                             "reuse_port": True}
                     items.append((case, bound, kinds))
+                    items.append((dict(case, reuse_port="reconnect"), bound, kinds))
                 # the failure carries the operating system's localised text, which the server's encoding cannot represent
                 if backend == "memory" and script in corpus.TRANSFER_SCRIPTS + ["dirs", "rename", "mlst"]:
                     for enc in ("latin-1", "ascii"):
